@@ -66,3 +66,24 @@ func VerifCalcMemSize(off, l *big.Int) *big.Int { return calcMemSize(off, l) }
 func VerifIsGasUintOverflow(err error) bool { return err == errGasUintOverflow }
 
 var _ = common.Big0
+
+// VerifReturnDataCopy: the real opReturnDataCopy on a memory of memLen zero bytes with the interpreter's return-data buffer
+// set to `ret` (a state that otherwise needs a completed CALL). Returns the memory afterwards and the error.
+func VerifReturnDataCopy(ret []byte, memLen uint64, memOffset, dataOffset, length *big.Int) ([]byte, error) {
+	evm := NewEVM(Context{BlockNumber: new(big.Int)}, nil, params.TestChainConfig, Config{})
+	evm.interpreter.returnData = ret
+	mem := NewMemory()
+	mem.Resize(memLen)
+	st := newstack()
+	st.push(new(big.Int).Set(length))
+	st.push(new(big.Int).Set(dataOffset))
+	st.push(new(big.Int).Set(memOffset))
+	pc := uint64(0)
+	_, err := opReturnDataCopy(&pc, evm, nil, mem, st)
+	return mem.Data(), err
+}
+
+func VerifIsReturnDataOOB(err error) bool { return err == errReturnDataOutOfBounds }
+
+// VerifGetDataBig: the real getDataBig.
+func VerifGetDataBig(data []byte, start, size *big.Int) []byte { return getDataBig(data, start, size) }
